@@ -1,6 +1,7 @@
 import SLModel.Drv.Util
 import SLModel.Drv.Doc
 import SLModel.Core.DocValidate
+import SLModel.Core.DocValidateLegacy
 open Lean
 namespace SL.Drv.C15
 open SL.Drv SL.Drv.DocJ SL.Doc
@@ -35,8 +36,8 @@ partial def expand (j : Json) : Json :=
   | x => x
 
 /-- `{"op":"verdict","schema":…,"doc":…,"cap":n}` →
-`{"add":b,"commit":b,"conforms":b,"benign":b,"unknown_top":b,"arr_in_arr":b,"leaves_typed":b,
-"size":n}` -/
+`{"add":b,"commit":b,"collects":b,"conforms":b,"within_cap":b,"size":n,"legacy_add":b,
+"legacy_commit":b}` — `legacy_*` = the validation before the repairs (documentation only) -/
 def handle (req : Json) : Except String Json := do
   let op ← getStr req "op"
   match op with
@@ -44,18 +45,16 @@ def handle (req : Json) : Except String Json := do
     let s := schemaOf (← req.getObjVal? "schema")
     let d := toJ (expand (← req.getObjVal? "doc"))
     let cap := getNatD req "cap" (32 * 1024 * 1024)
-    let (ut, aa, lt) := match d with
-      | .obj kv => (unknownTop s kv, arrInArrTop s kv, leavesTypedTop s kv)
-      | _ => (false, false, true)
+    let sz := size (project s d)
     return Json.mkObj [
       ("add", validateAdd blank s d),
       ("commit", collectOk blank size cap s d),
+      ("collects", collectDoc s d),
       ("conforms", conforms blank s d),
-      ("benign", benign size cap s d),
-      ("unknown_top", ut),
-      ("arr_in_arr", aa),
-      ("leaves_typed", lt),
-      ("size", size (project s d))]
+      ("within_cap", decide (sz ≤ cap)),
+      ("size", sz),
+      ("legacy_add", Legacy.validateAdd blank s d),
+      ("legacy_commit", Legacy.collectOk blank size cap s d)]
   | _ => throw s!"C15: unknown op {op}"
 
 end SL.Drv.C15
